@@ -740,3 +740,46 @@ def reach_with_flags(fn, start, avoid=frozenset(), stop=frozenset(), prog=None):
             if not fn.blocks[s2].get("cleanup"):
                 work.append((s2, env2))
     return out
+
+
+def reaching_defs(fn, local, block, stmt_idx):
+    """definitions of `local` (whole-local assignments and call results) that reach the point just before
+    statement `stmt_idx` of `block`: [(def_block, rvalue | Call)] — classic reaching definitions for one variable."""
+    nb = len(fn.blocks)
+    last = {}   # block -> last def in the block (idx, what)
+    for b, blk in enumerate(fn.blocks):
+        for k, st in enumerate(blk["stmts"]):
+            if st["s"] == "assign" and st["p"] == [local]:
+                last[b] = (k, st["rv"])
+        t = blk["term"]
+        if t["t"] == "call" and t.get("dest") == [local]:
+            last[b] = (len(blk["stmts"]), fn.call_at(b))
+    out = {b: set() for b in range(nb)}
+    changed = True
+    preds = {b: fn.pred(b) for b in range(nb)}
+    while changed:
+        changed = False
+        for b in range(nb):
+            if b in last:
+                new = {b}
+            else:
+                new = set()
+                for p_ in preds[b]:
+                    new |= out[p_]
+            if new != out[b]:
+                out[b] = new
+                changed = True
+    # inside the block: a def before stmt_idx wins
+    cur = None
+    for k, st in enumerate(fn.blocks[block]["stmts"][:stmt_idx]):
+        if st["s"] == "assign" and st["p"] == [local]:
+            cur = st["rv"]
+    if cur is not None:
+        return [(block, cur)]
+    res = []
+    inn = set()
+    for p_ in preds[block]:
+        inn |= out[p_]
+    for d in sorted(inn):
+        res.append((d, last[d][1]))
+    return res
